@@ -1,6 +1,6 @@
 package ringbuffer
 
-//verif: mode=bv
+// verif: mode=bv
 func VH_C20_RbIndex() {
 	n := vNondetInt("n")
 	idx := index(n)
